@@ -10,6 +10,7 @@ CONSTANTS
   Big = %s
   DevFirstTokenNotWhole = FALSE
   DevLastTokenIsFirst = FALSE
+  DevUrlStarIsWildcard = FALSE
   DevKeyIgnoresTag = %s
 INVARIANTS RefinesAndExports
 CHECK_DEADLOCK FALSE
@@ -96,3 +97,25 @@ def corpus_stage(v, wd, seed, n_lists, reqs_per_list=40, name="corpus"):
                   "mismatches": mism, "counters": summ.get("counters", {})}, "M3:Trace_C01/" + name, traces=1)
     vlib.require(v.violations or summ["nontrivial"] > 50, "corpus stage: almost no request hit any rule")
     return summ
+
+
+def index_on_pattern_universe(v, wd, maxlen, workers=8):
+    """C01 on the pattern universe of C02: TLC checks Tokens!IndexComplete (every token a rule may be filed under is
+    probed by every request the rule's matcher accepts) for every pattern x URL, and the replay compares an engine
+    holding only the rule with the rule's own matcher.  Pattern-semantics mismatches are C02's business and are
+    not counted here."""
+    from checks import c02
+    sigma = ['"a"', '"b"', '"."', '"/"', '"^"', '"*"']
+    r = vlib.run_tlc("MC_C02", c02.CFG % (maxlen, ", ".join(sigma), "TRUE", "FALSE", "FALSE"), wd, "mc_patterns", workers=workers, timeout=3000)
+    if r["error"]:
+        raise vlib.ToolError("M1 (pattern universe) failed: " + r["error"][:2000])
+    v.add_tlc(r)
+    cases = os.path.join(wd, "cases_patterns.jsonl")
+    vlib.write_jsonl(cases, r["exports"])
+    rep_path = os.path.join(wd, "report_patterns.json")
+    vlib.run_harness(["replay", cases, rep_path])
+    rep = vlib.load_report(rep_path)
+    rep["mismatches"] = [m for m in rep.get("mismatches", []) if m.get("what") == "index-vs-matcher" or m.get("observed") == "panic"]
+    vlib.require(rep["evaluations"] > 1000 and rep["nontrivial"] > 50, "pattern universe replay too small")
+    v.add_report(rep, "M2:MC_C02/index", traces=len(r["exports"]) - 1)
+    return rep
